@@ -74,7 +74,7 @@ Definition a3_centre (ps pb pe : vec) : vec :=
   let fact := / 2 * (dot b b - dot a b) / a3_denom ps pb pe in
   vadd (vadd ps (vscale (/ 2) a)) (vscale fact (cross (cross a b) a)).
 (** the quantities computed from the centre, with the centre as an argument (the correspondence check
-    evaluates them on a kernel-checked enclosure of the centre) *)
+    evaluates them on a kernel-checked enclosure of the centre, see Proofs/C08_Corr.v) *)
 (** cosine of the included angle: rad_start.rad_end/(mag1*mag3) *)
 Definition a3_x_at (c ps pe : vec) : R :=
   dot (vsub ps c) (vsub pe c) / (norm (vsub ps c) * norm (vsub pe c)).
@@ -84,18 +84,19 @@ Definition a3_flipq_at (c ps pb pe : vec) : R :=
 Definition a3_x (ps pb pe : vec) : R := a3_x_at (a3_centre ps pb pe) ps pe.
 Definition a3_flipq (ps pb pe : vec) : R := a3_flipq_at (a3_centre ps pb pe) ps pb pe.
 Definition a3_radius (ps pb pe : vec) : R := norm (vsub pe (a3_centre ps pb pe)).
-(** np.arccos(np.clip(., -1, 1)) after fixes/C08-2.diff; Coq's acos is already total and clipped *)
-Definition arc_length_3point (ps pb pe : vec) : R :=
-  let ang := acos (a3_x ps pb pe) in
-  (if Rlt_dec (a3_flipq ps pb pe) 0 then 2 * PI - ang else ang) * a3_radius ps pb pe.
+(** the value as a function of the centre: angle * norm(radius), angle = arccos(clip(x, -1, 1)) (the clip is
+    fixes/C08-2.diff; Coq's [acos] is total and clipped in the same way), replaced by 2 pi - angle when the
+    sign test says "exterior" *)
+Definition a3_len_at (c ps pb pe : vec) : R :=
+  (if Rlt_dec (a3_flipq_at c ps pb pe) 0 then 2 * PI - acos (a3_x_at c ps pe) else acos (a3_x_at c ps pe))
+  * norm (vsub pe c).
+Definition arc_length_3point (ps pb pe : vec) : R := a3_len_at (a3_centre ps pb pe) ps pb pe.
 
 (** the same value with acos written through atan (what [interval] can evaluate); the two branch
-    expressions are tied to [arc_length_3point] by Proofs/C08_ThreePoint.v *)
+    expressions are tied to [a3_len_at] by Proofs/C08_Corr.v *)
 Definition acos_atan (x : R) : R := PI / 2 - atan (x / sqrt (1 - x * x)).
 Definition a3_len_noflip_at (c ps pe : vec) : R := acos_atan (a3_x_at c ps pe) * norm (vsub pe c).
 Definition a3_len_flip_at (c ps pe : vec) : R := (2 * PI - acos_atan (a3_x_at c ps pe)) * norm (vsub pe c).
-Definition a3_len_noflip (ps pb pe : vec) : R := a3_len_noflip_at (a3_centre ps pb pe) ps pe.
-Definition a3_len_flip (ps pb pe : vec) : R := a3_len_flip_at (a3_centre ps pb pe) ps pe.
 
 (** *** ArcEdgeBase.length: arcs that would not be written (coincident ends or collinear third point)
     are straight lines *)
